@@ -94,6 +94,9 @@ type linCtx struct {
 	depth  int
 	mins   []*ssa.Call // min/max builtin atoms met (for case splits)
 	noPhi  *ssa.Phi    // the loop variable whose step is being examined (no induction fact about itself)
+	// atoms that stand for a value inside a callee (the quotient of a size helper): their facts were stated when
+	// the call was met, over the arguments of that call
+	foreign map[string]bool
 }
 
 func wideInt(t types.Type) bool {
@@ -522,6 +525,9 @@ func (c *linCtx) atomFacts(done map[string]bool) bool {
 			continue
 		}
 		done[k] = true
+		if c.foreign[k] {
+			continue
+		}
 		added = true
 		v := c.atoms[k]
 		self := newLin(0)
@@ -600,6 +606,23 @@ func (c *linCtx) atomFacts(done map[string]bool) bool {
 				c.phiFacts(x, self)
 				c.phiEdgeFacts(x, self)
 			}
+		case *ssa.UnOp:
+			// an element of a local array of constants (for _, ix := range [...]int{0, 1, 3, 4}): between the
+			// smallest and the largest of them
+			if lo, hi, ok := localConstElemRange(x); ok {
+				c.fact(self.addConst(-hi))
+				c.fact(newLin(lo).sub(self))
+			}
+		case *ssa.Index:
+			// ... the same through a copy of the whole array (range over an array value)
+			if ld, ok := x.X.(*ssa.UnOp); ok && ld.Op == token.MUL && isIntType(x.Type()) {
+				if al, ok := ld.X.(*ssa.Alloc); ok {
+					if lo, hi, ok := constArrayRange(al); ok {
+						c.fact(self.addConst(-hi))
+						c.fact(newLin(lo).sub(self))
+					}
+				}
+			}
 		case *ssa.Parameter:
 			c.paramFacts(x, self)
 		case *ssa.Extract:
@@ -624,6 +647,17 @@ func (c *linCtx) atomFacts(done map[string]bool) bool {
 			}
 		}
 		if call, ok := v.(*ssa.Call); ok {
+			// a size written as a function of the module (func EncodedLen(n int) int { return (n + 1) / 2 }): one
+			// straight-line block of integer arithmetic over its parameters, called once in this function
+			if g := call.Call.StaticCallee(); g != nil && !call.Call.IsInvoke() && inModule(g) && len(g.Blocks) == 1 && len(g.FreeVars) == 0 && wideInt(call.Type()) && soleCallIn(call.Parent(), g) {
+				ins := g.Blocks[0].Instrs
+				if ret, ok := ins[len(ins)-1].(*ssa.Return); ok && len(ret.Results) == 1 && len(call.Call.Args) == len(g.Params) {
+					if e := c.linSubst(ret.Results[0], g, call.Call.Args, 0); e != nil {
+						c.fact(self.sub(e))
+						c.fact(e.sub(self))
+					}
+				}
+			}
 			// sort.Search(n, f) returns an index in 0..n (documented)
 			if f := call.Call.StaticCallee(); f != nil && calleeName(f) == "sort.Search" && len(call.Call.Args) == 2 {
 				nonneg()
@@ -640,6 +674,198 @@ func (c *linCtx) atomFacts(done map[string]bool) bool {
 		}
 	}
 	return added
+}
+
+// localConstElemRange: ld loads an element of a local array (or of a slice of a local array) every element of which
+// is stored exactly once, with an integer constant, and whose address goes nowhere else: the range of the constants.
+func localConstElemRange(ld *ssa.UnOp) (int64, int64, bool) {
+	if ld.Op != token.MUL || !isIntType(ld.Type()) {
+		return 0, 0, false
+	}
+	ia, ok := ld.X.(*ssa.IndexAddr)
+	if !ok {
+		return 0, 0, false
+	}
+	base := ia.X
+	if sl, ok := base.(*ssa.Slice); ok {
+		base = sl.X
+	}
+	al, ok := base.(*ssa.Alloc)
+	if !ok {
+		return 0, 0, false
+	}
+	return constArrayRange(al)
+}
+
+// constArrayRange: every store into the local array is a constant at a constant index, once; nothing else can
+// write it. The range of the constants (with 0 for elements not, or not yet, stored).
+func constArrayRange(al *ssa.Alloc) (int64, int64, bool) {
+	if al.Referrers() == nil {
+		return 0, 0, false
+	}
+	if _, ok := al.Type().Underlying().(*types.Pointer).Elem().Underlying().(*types.Array); !ok {
+		return 0, 0, false
+	}
+	lo, hi := int64(0), int64(0)
+	n := 0
+	seenIdx := map[int64]bool{}
+	for _, ref := range *al.Referrers() {
+		switch r := ref.(type) {
+		case *ssa.DebugRef:
+		case *ssa.Slice:
+			// s := arr[:]: only element reads through the view
+			if r.Referrers() != nil {
+				for _, r2 := range *r.Referrers() {
+					switch y := r2.(type) {
+					case *ssa.IndexAddr:
+						if !onlyLoaded(y) {
+							return 0, 0, false
+						}
+					case *ssa.DebugRef:
+					case ssa.CallInstruction:
+						if b, ok := y.Common().Value.(*ssa.Builtin); !ok || b.Name() != "len" {
+							return 0, 0, false
+						}
+					default:
+						return 0, 0, false
+					}
+				}
+			}
+		case *ssa.IndexAddr:
+			if onlyLoaded(r) {
+				continue
+			}
+			// the initialising store: constant index, constant value, once
+			k, okk := constInt(r.Index)
+			if !okk || seenIdx[k] || r.Referrers() == nil || len(*r.Referrers()) != 1 {
+				return 0, 0, false
+			}
+			st, ok := (*r.Referrers())[0].(*ssa.Store)
+			if !ok || st.Addr != ssa.Value(r) {
+				return 0, 0, false
+			}
+			v, okv := constInt(st.Val)
+			if !okv {
+				return 0, 0, false
+			}
+			seenIdx[k] = true
+			if v < lo {
+				lo = v
+			}
+			if v > hi {
+				hi = v
+			}
+			n++
+		case *ssa.UnOp:
+			// the whole array copied (range over an array value): a copy cannot change the original
+			if r.Op != token.MUL {
+				return 0, 0, false
+			}
+		default:
+			return 0, 0, false
+		}
+	}
+	return lo, hi, n > 0
+}
+
+func onlyLoaded(ia *ssa.IndexAddr) bool {
+	if ia.Referrers() == nil {
+		return true
+	}
+	for _, r := range *ia.Referrers() {
+		switch y := r.(type) {
+		case *ssa.UnOp:
+			if y.Op != token.MUL {
+				return false
+			}
+		case *ssa.DebugRef:
+		default:
+			return false
+		}
+	}
+	return true
+}
+
+// soleCallIn: fn calls g at exactly one place.
+func soleCallIn(fn, g *ssa.Function) bool {
+	if fn == nil {
+		return false
+	}
+	n := 0
+	for _, b := range fn.Blocks {
+		for _, in := range b.Instrs {
+			if ci, ok := in.(ssa.CallInstruction); ok && ci.Common().StaticCallee() == g {
+				n++
+			}
+		}
+	}
+	return n == 1
+}
+
+// linSubst: the value v of the straight-line function g as a linear expression over the arguments of one call.
+// A quotient by a positive constant of a non-negative numerator becomes an atom of its own with the two facts
+// that define it. nil: not integer arithmetic of this kind.
+func (c *linCtx) linSubst(v ssa.Value, g *ssa.Function, args []ssa.Value, depth int) *linExpr {
+	if depth > 8 {
+		return nil
+	}
+	switch x := v.(type) {
+	case *ssa.Const:
+		if n, ok := constInt(x); ok {
+			return newLin(n)
+		}
+	case *ssa.Parameter:
+		for i, p := range g.Params {
+			if p == x && wideInt(x.Type()) {
+				return c.lin(args[i], 0)
+			}
+		}
+	case *ssa.ChangeType:
+		return c.linSubst(x.X, g, args, depth+1)
+	case *ssa.BinOp:
+		if !wideInt(x.Type()) {
+			return nil
+		}
+		switch x.Op {
+		case token.ADD, token.SUB:
+			a, b := c.linSubst(x.X, g, args, depth+1), c.linSubst(x.Y, g, args, depth+1)
+			if a == nil || b == nil {
+				return nil
+			}
+			if x.Op == token.ADD {
+				return a.addScaled(b, big.NewRat(1, 1))
+			}
+			return a.sub(b)
+		case token.MUL:
+			for _, pr := range [][2]ssa.Value{{x.X, x.Y}, {x.Y, x.X}} {
+				if k, ok := constInt(pr[0]); ok {
+					if b := c.linSubst(pr[1], g, args, depth+1); b != nil {
+						return newLin(0).addScaled(b, big.NewRat(k, 1))
+					}
+				}
+			}
+		case token.QUO:
+			k, ok := constInt(x.Y)
+			if !ok || k <= 0 {
+				return nil
+			}
+			e := c.linSubst(x.X, g, args, depth+1)
+			if e == nil || !c.entailsWith(newLin(0).sub(e), nil) {
+				return nil
+			}
+			q := c.atom(x)
+			if c.foreign == nil {
+				c.foreign = map[string]bool{}
+			}
+			c.foreign[c.valueKey(x)] = true
+			kq := newLin(0).addScaled(q, big.NewRat(k, 1))
+			c.fact(kq.sub(e))                    // k*q <= e
+			c.fact(e.sub(kq).addConst(-(k - 1))) // e <= k*q + k-1
+			c.fact(newLin(0).sub(q))
+			return q
+		}
+	}
+	return nil
 }
 
 // phiFacts: a loop variable that only grows (shrinks) stays above (below) its initial value.
